@@ -5,6 +5,7 @@
 package engine
 
 import (
+	"encoding/json"
 	"fmt"
 	"strconv"
 	"strings"
@@ -322,12 +323,56 @@ func fieldsSexp(t *TShape, w *WVal) []hx.Sexp {
 	return xs
 }
 
+// SettleMode says which serial executor the tree under test has, and therefore which one the
+// model is asked to run for mutations: false — after wait(e, f) the next root field starts at
+// once (finding F-11a: a promise abandoned by a failed selection set may still be outstanding);
+// true — the repaired executor (repo-patches/C11/01-fix-*, settleSerialPromises: after wait the
+// idle handler is driven until every promise returned beneath the current root field has been
+// received). Set once at start-up by DetectSettle; the oracles do not depend on it.
+var SettleMode bool
+
+const settleProbe = `{"mutation":true,"shape":{"kind":"object","fields":[{"name":"a","t":{"kind":"object","fields":[{"name":"x","t":{"kind":"int"}},{"name":"y","t":{"kind":"int"},"nn":true}]}},{"name":"b","t":{"kind":"int"}}]},"world":{"kind":"object","fields":[{"mode":"sync","v":{"kind":"object","fields":[{"mode":"promise","v":{"kind":"int","n":1}},{"mode":"sync","v":{"kind":"null"}}]}},{"mode":"promise","v":{"kind":"int","n":2}}]},"schedule":[]}`
+
+// DetectSettle runs mutation { a { x y } b } (a.x through a promise, a.y: Int! null, b through a
+// promise) on the executor under test and sets SettleMode to whether the abandoned promise of a.x
+// was fulfilled before b's resolver was called.
+func DetectSettle() (bool, error) {
+	var c Case
+	if err := json.Unmarshal([]byte(settleProbe), &c); err != nil {
+		return false, err
+	}
+	o, err := RunReal(&c)
+	if err != nil {
+		return false, err
+	}
+	if o.Panic != "" || o.Stuck {
+		return false, fmt.Errorf("settle probe did not finish: panic=%q stuck=%v", o.Panic, o.Stuck)
+	}
+	fulfilX, startB := -1, -1
+	for i, e := range o.Events {
+		if e.Kind == "fulfil" && e.Path == `["a","x"]` {
+			fulfilX = i
+		}
+		if e.Kind == "start" && e.Path == `["b"]` {
+			startB = i
+		}
+	}
+	if startB < 0 {
+		return false, fmt.Errorf("settle probe: resolver of b never called: %v", o.Events)
+	}
+	SettleMode = fulfilX >= 0 && fulfilX < startB
+	return SettleMode, nil
+}
+
 // ModelLine is the request line for c02model / c11model.
 func (c *Case) ModelLine() string {
 	AssignTypeNames(c.Shape)
 	kind := "query"
 	if c.Mutation {
 		kind = "mutation"
+		if SettleMode {
+			kind = "mutation-settle"
+		}
 	}
 	var sched []hx.Sexp
 	for _, m := range c.Schedule {
